@@ -110,7 +110,12 @@ impl<'a> Judge<'a> {
             if let ExpCtx::Some { span: PRef::Span(n), .. } = &e.ctx {
                 if let Some(o) = find_obs(ex, e) {
                     if let ObsVal::Ctx(Some(c)) = &o.val {
-                        if !idmap.contains_key(n) {
+                        // a name the program gives to several spans (one enter_on_poll span per
+                        // poll) legitimately has several ids
+                        let multi = m.erecs.iter().filter(|x| &x.name == n).count() > 1
+                            && m.erecs.iter().filter(|x| &x.name == n).map(|x| (&x.trace, &x.root, x.copy)).collect::<std::collections::BTreeSet<_>>().len()
+                                < m.erecs.iter().filter(|x| &x.name == n).count();
+                        if !idmap.contains_key(n) || multi {
                             idmap.entry(n.clone()).or_default().insert(c.span);
                         }
                     }
@@ -313,6 +318,18 @@ impl<'a> Judge<'a> {
                         if known { "record of a span that must not be delivered" } else { "record the program does not define" },
                         format!("{} in trace {:x} parent {:x}", r.name, r.trace.0, r.parent),
                     ));
+                }
+            }
+        }
+        // nothing is delivered before it finished (a span: its finish; a local span: the end of the
+        // scope or the push that submits it)
+        for (ei, e) in self.m.erecs.iter().enumerate() {
+            if let Some(&(begin, _)) = self.m.op_seq.get(&e.submit) {
+                for &mi in &self.by_erec[ei] {
+                    let b = &self.ex.batches[self.matched[mi].batch];
+                    if b.seq < begin {
+                        out.push(f("no-extra", format!("{} delivered before it finished", kind_of(e)), format!("{}: report call at {} but the finishing operation {:?} began at {begin}", e.name, b.seq, e.submit)));
+                    }
                 }
             }
         }
